@@ -145,7 +145,9 @@ cvm::real colvarproxy_verif::rand_gaussian()
 {
   double u1 = ((splitmix64(rng_state) >> 11) + 1.0) / 9007199254740993.0;
   double u2 = (splitmix64(rng_state) >> 11) / 9007199254740992.0;
-  return std::sqrt(-2.0 * std::log(u1)) * std::cos(2.0 * M_PI * u2);
+  double const g = std::sqrt(-2.0 * std::log(u1)) * std::cos(2.0 * M_PI * u2);
+  drawn.push_back(g);
+  return g;
 }
 
 static thread_local int tl_thread = -1;
@@ -315,6 +317,7 @@ int colvarproxy_verif::do_step(bool continuing)
     colvarmodule::it++;
     b_simulation_continuing = false;
   }
+  drawn.clear();
   for (size_t i = 0; i < atoms_new_colvar_forces.size(); i++) {
     atoms_new_colvar_forces[i].reset();
   }
